@@ -567,6 +567,54 @@ func runC14(c *Ctx) {
 		r1.AnchorLost("validator.VariableValues / validateVarType")
 		return
 	}
+	// the coercer: validateVarType and the functions of its package it hands a case to (those that call it back)
+	coercer := []*ssa.Function{vt}
+	{
+		reachesVT := map[*ssa.Function]int{}
+		var reach func(f *ssa.Function, depth int) bool
+		reach = func(f *ssa.Function, depth int) bool {
+			if f == vt {
+				return true
+			}
+			if depth > 4 || f == nil || len(f.Blocks) == 0 || f.Pkg != vt.Pkg {
+				return false
+			}
+			switch reachesVT[f] {
+			case 1:
+				return false
+			case 2:
+				return true
+			case 3:
+				return false
+			}
+			reachesVT[f] = 1
+			res := false
+			allInstrs(f, func(in ssa.Instruction) {
+				if ci, ok := in.(ssa.CallInstruction); ok && !res {
+					if g := ci.Common().StaticCallee(); g != nil && reach(g, depth+1) {
+						res = true
+					}
+				}
+			})
+			if res {
+				reachesVT[f] = 2
+			} else {
+				reachesVT[f] = 3
+			}
+			return res
+		}
+		seen := map[*ssa.Function]bool{vt: true}
+		for i := 0; i < len(coercer); i++ {
+			allInstrs(coercer[i], func(in ssa.Instruction) {
+				if ci, ok := in.(ssa.CallInstruction); ok {
+					if g := ci.Common().StaticCallee(); g != nil && !seen[g] && g != vv && g.Pkg == vt.Pkg && reach(g, 0) {
+						seen[g] = true
+						coercer = append(coercer, g)
+					}
+				}
+			})
+		}
+	}
 	scope := map[*ssa.Function]bool{}
 	for f := range p.reachableFrom([]*ssa.Function{vv}, nil) {
 		if p.inModule(f) {
@@ -599,10 +647,11 @@ func runC14(c *Ctx) {
 	rs.install()
 	// R7 asks, at the skip edges of the per-field loop, whether the supplied field value was valid: keep those facts
 	na.pinned = map[string]bool{}
-	if vt != nil {
-		allInstrs(vt, func(in ssa.Instruction) {
+	for _, cf := range coercer {
+		cf := cf
+		allInstrs(cf, func(in ssa.Instruction) {
 			if name, _, call, ok := reflMethod(in); ok && name == "MapIndex" {
-				na.pinned[vt.Name()+"/"+call.Name()] = true
+				na.pinned[cf.Name()+"/"+call.Name()] = true
 			}
 		})
 	}
@@ -823,12 +872,9 @@ func runC14(c *Ctx) {
 	// ---- R4 every stored value is nil (guarded) or the coercer's result
 	r4 := c.Rule("R4", "every value stored in the result comes out of the coercer", 2)
 	if resMap != nil {
-		allInstrs(vv, func(in ssa.Instruction) {
-			mu, ok := in.(*ssa.MapUpdate)
-			if !ok || mu.Map != resMap {
-				return
-			}
-			val := mu.Value
+		for _, w := range c14ResultWrites(p, vv, resMap) {
+			in, wfn := ssa.Instruction(w.mu), w.fn
+			val := w.mu.Value
 			if isNilConst(val) {
 				// under v.Type.NonNull == false
 				st := na.stateAt(in)
@@ -848,9 +894,9 @@ func runC14(c *Ctx) {
 					r3.OK("nil stored for a variable at "+p.Pos(in.Pos()), "under NonNull == false")
 					r4.OK("result[var] = nil at "+p.Pos(in.Pos()), "explicit null for a nullable variable")
 				} else {
-					r3.Fail(in.Pos(), p.FuncName(vv), "nil stored without a NonNull test", "a null variable value is accepted although the variable's type may be non-null")
+					r3.Fail(in.Pos(), p.FuncName(wfn), "nil stored without a NonNull test", "a null variable value is accepted although the variable's type may be non-null")
 				}
-				return
+				continue
 			}
 			// MakeInterface / call rval.Interface() where rval is the coercer's result
 			okC := false
@@ -866,16 +912,16 @@ func runC14(c *Ctx) {
 			if okC {
 				r4.OK("result[var] = validateVarType(...).Interface() at "+p.Pos(in.Pos()), "")
 			} else {
-				r4.Fail(in.Pos(), p.FuncName(vv), "value stored in the result without passing the coercer", "a variable value (for example an evaluated default) is returned to the caller without being checked and coerced against the declared type: the result may not conform (single value for a list type, wrong enum value, missing required input field)")
+				r4.Fail(in.Pos(), p.FuncName(wfn), "value stored in the result without passing the coercer", "a variable value (for example an evaluated default) is returned to the caller without being checked and coerced against the declared type: the result may not conform (single value for a list type, wrong enum value, missing required input field)")
 			}
-		})
+		}
 	}
 
 	// ---- R5 loops cannot be skipped
 	r5 := c.Rule("R5", "list elements, unknown fields and declared fields are all examined", 3)
 	{
-		headers, bodies := loopsOf(vt)
 		loopOf := func(in ssa.Instruction) *ssa.BasicBlock {
+			headers, bodies := loopsOf(in.Parent())
 			var best *ssa.BasicBlock
 			for _, h := range headers {
 				if bodies[h][in.Block()] && (best == nil || len(bodies[h]) < len(bodies[best])) {
@@ -891,7 +937,7 @@ func runC14(c *Ctx) {
 		}
 		var needs []need
 		// element loop: contains the recursive call with typ.Elem
-		for _, ci := range callsTo([]*ssa.Function{vt}, vt) {
+		for _, ci := range callsTo(coercer, vt) {
 			a := ci.Common().Args[1]
 			h := loopOf(ci)
 			switch {
@@ -902,13 +948,15 @@ func runC14(c *Ctx) {
 			}
 		}
 		// unknown-field loop: contains def.Fields.ForName under MapKeys
-		allInstrs(vt, func(in ssa.Instruction) {
-			if call, ok := in.(*ssa.Call); ok {
-				if g := call.Call.StaticCallee(); g != nil && g.Name() == "ForName" && loadOfField(call.Call.Args[0], "Definition", "Fields") {
-					needs = append(needs, need{"the unknown-field loop of the input-object case", loopOf(in), nil})
+		for _, cf := range coercer {
+			allInstrs(cf, func(in ssa.Instruction) {
+				if call, ok := in.(*ssa.Call); ok {
+					if g := call.Call.StaticCallee(); g != nil && g.Name() == "ForName" && loadOfField(call.Call.Args[0], "Definition", "Fields") {
+						needs = append(needs, need{"the unknown-field loop of the input-object case", loopOf(in), nil})
+					}
 				}
-			}
-		})
+			})
+		}
 		if len(needs) < 3 {
 			r5.Fail(vt.Pos(), p.FuncName(vt), "loops not found", "the element loop, the unknown-field loop or the per-field loop (with its recursive call) is missing")
 		}
@@ -931,6 +979,19 @@ func runC14(c *Ctx) {
 					skipped = true
 				}
 			}
+			// a loop that sits in a helper: the call that leads to the helper must not be bypassable in its caller once the
+			// case is entered, and the caller must hand the helper's result back
+			if hf := nd.hdr.Parent(); hf != vt && !skipped {
+				for _, ci := range callsTo(coercer, hf) {
+					centry := caseEntryOf(ci.Block())
+					rr2 := reachAvoiding(centry, func(b *ssa.BasicBlock) bool { return b == ci.Block() }, nil)
+					for b := range rr2 {
+						if ret, ok := b.Instrs[len(b.Instrs)-1].(*ssa.Return); ok && isNilConst(returnValues(ret)[len(returnValues(ret))-1]) && b != centry {
+							skipped = true
+						}
+					}
+				}
+			}
 			if skipped {
 				r5.Fail(nd.hdr.Instrs[0].Pos(), p.FuncName(vt), "success return can skip "+nd.what, "the coercer can report success for a list / input object without examining its children: nested values are returned unchecked")
 			} else {
@@ -942,8 +1003,8 @@ func runC14(c *Ctx) {
 	// ---- R7 a declared field is left uncoerced only when absent or nullable
 	r7 := c.Rule("R7", "a declared input field is skipped only when it is absent or its type is nullable", 2)
 	{
-		headers, bodies := loopsOf(vt)
-		for _, ci := range callsTo([]*ssa.Function{vt}, vt) {
+		for _, ci := range callsTo(coercer, vt) {
+			headers, bodies := loopsOf(ci.Parent())
 			a := ci.Common().Args[1]
 			if !loadOfField(a, "FieldDefinition", "Type") {
 				continue
@@ -981,6 +1042,9 @@ func runC14(c *Ctx) {
 				term := pr.Instrs[len(pr.Instrs)-1]
 				st := na.stateAt(term)
 				bad := false
+				if os.Getenv("GQLVET_R7DBG") != "" {
+					fmt.Fprintf(os.Stderr, "R7DBG %s sup=%s nn=%s states=%v\n", p.Pos(lastPos(pr)), sup, nnKey, st)
+				}
 				for _, d := range st {
 					if v, ok := d["rv:"+sup]; ok && v == 0 {
 						continue // absent
@@ -1002,10 +1066,16 @@ func runC14(c *Ctx) {
 
 	// ---- R6 recursion passes the child's type
 	r6 := c.Rule("R6", "recursion passes the child's own declared type", 2)
-	for _, ci := range callsTo([]*ssa.Function{vt}, vt) {
+	for _, ci := range callsTo(coercer, vt) {
 		a := ci.Common().Args[1]
+		typParam := ""
+		for _, prm := range ci.Parent().Params {
+			if typeIs(prm.Type(), "/ast", "Type") {
+				typParam = "p:" + prm.Name()
+			}
+		}
 		switch {
-		case loadOfField(a, "Type", "Elem") && typeBasePath(a) == "p:"+vt.Params[1].Name():
+		case loadOfField(a, "Type", "Elem") && typeBasePath(a) == typParam:
 			r6.OK("list element coerced against typ.Elem", "")
 		case loadOfField(a, "FieldDefinition", "Type"):
 			r6.OK("input field coerced against fieldDef.Type", "")
@@ -1223,6 +1293,16 @@ func c14EveryValuedVariableWritten(c *Ctx, r *RuleResult, vv *ssa.Function) {
 				if x.Map == resMap {
 					wrote = true
 				}
+			case ssa.CallInstruction:
+				// the map handed to a helper that stores into it on every successful return (the error return of the
+				// helper is an error return of the iteration)
+				if h := x.Common().StaticCallee(); h != nil {
+					for j, a := range x.Common().Args {
+						if a == resMap && c14WritesOnSuccess(h, j) {
+							wrote = true
+						}
+					}
+				}
 			}
 		}
 		switch t := b.Instrs[len(b.Instrs)-1].(type) {
@@ -1376,4 +1456,69 @@ func (rs *reflState) predicatePaths(g *ssa.Function) map[bool][][]Cond {
 	}
 	rs.predMemo[g] = out
 	return out
+}
+
+// c14ResultWrites: the stores into VariableValues' result map — in VariableValues itself, or in a function it hands the
+// map to as an argument (one level).
+type c14Write struct {
+	mu *ssa.MapUpdate
+	fn *ssa.Function
+}
+
+func c14ResultWrites(p *Program, vv *ssa.Function, resMap ssa.Value) []c14Write {
+	var out []c14Write
+	allInstrs(vv, func(in ssa.Instruction) {
+		switch x := in.(type) {
+		case *ssa.MapUpdate:
+			if x.Map == resMap {
+				out = append(out, c14Write{x, vv})
+			}
+		case ssa.CallInstruction:
+			h := x.Common().StaticCallee()
+			if h == nil || !p.inModule(h) || len(h.Blocks) == 0 {
+				return
+			}
+			for j, a := range x.Common().Args {
+				if a != resMap || j >= len(h.Params) {
+					continue
+				}
+				prm := h.Params[j]
+				allInstrs(h, func(in2 ssa.Instruction) {
+					if mu, ok := in2.(*ssa.MapUpdate); ok && mu.Map == ssa.Value(prm) {
+						out = append(out, c14Write{mu, h})
+					}
+				})
+			}
+		}
+	})
+	return out
+}
+
+// c14WritesOnSuccess: h stores into its map parameter j on every path that ends in a return with a nil last result.
+func c14WritesOnSuccess(h *ssa.Function, j int) bool {
+	if h == nil || len(h.Blocks) == 0 || j >= len(h.Params) {
+		return false
+	}
+	prm := h.Params[j]
+	writes := map[*ssa.BasicBlock]bool{}
+	allInstrs(h, func(in ssa.Instruction) {
+		if mu, ok := in.(*ssa.MapUpdate); ok && mu.Map == ssa.Value(prm) {
+			writes[in.Block()] = true
+		}
+	})
+	if len(writes) == 0 {
+		return false
+	}
+	rr := reachAvoiding(h.Blocks[0], func(b *ssa.BasicBlock) bool { return writes[b] }, nil)
+	for b := range rr {
+		ret, ok := b.Instrs[len(b.Instrs)-1].(*ssa.Return)
+		if !ok {
+			continue
+		}
+		vals := returnValues(ret)
+		if len(vals) == 0 || isNilConst(stripConv(vals[len(vals)-1])) {
+			return false
+		}
+	}
+	return true
 }
